@@ -290,9 +290,16 @@ def misc_headers(n):
 LONG_NUMBERS = [b"bytes=0-" + b"9" * 4301, b"bytes=0-" + b"9" * 4300, b"bytes=" + b"0" * 4301 + b"-", b"bytes=-" + b"0" * 4300 + b"1"]
 
 
+def lit(b):
+    """list N literal for bytes: a Coq string literal when printable ASCII (half as long as hex, literals are what costs time)"""
+    if all(32 <= c < 127 and c != 34 for c in b):
+        return '(bytes_of_string "%s")' % b.decode("ascii")
+    return T.bytes_(b)
+
+
 def cps(s):
     if all(ord(c) < 128 for c in s):
-        return T.bytes_(s.encode("ascii"))
+        return lit(s.encode("ascii"))
     return "[" + "; ".join("%d" % ord(c) for c in s) + "]"
 
 
@@ -347,7 +354,7 @@ class Run(object):
             if model:
                 hdr_term = "None" if (hb is None or not decodable) else "(Some %s)" % cps(h)
                 lhs = "render %s (mkdata %s) %s" % (method.decode(), T.nat(n) if n < 5000 else "(N.to_nat %s)" % T.N(n), hdr_term)
-                crt = T.opt(None if cr is None else T.bytes_(cr))
+                crt = T.opt(None if cr is None else lit(cr))
                 clt = T.N(max(cl, 0)) if cl >= 0 else T.N(10 ** 9)
                 if len(body) <= 24:
                     self.terms.append("resp_eqb (%s) (mkResponse %s %s %s %s)" % (lhs, T.N(status), crt, clt, T.bytes_(body)))
@@ -403,7 +410,8 @@ class Run(object):
 
     def flush(self):
         ctx = self.ctx
-        bad = ctx.coq_check(IMPORTS, self.terms, preamble=PREAMBLE, tag="c40")
+        # while searching for a failing input after a broken obligation only the oracle matters
+        bad = [] if ctx.search else ctx.coq_check(IMPORTS, self.terms, preamble=PREAMBLE, tag="c40")
         for ix in bad:
             case, method, obs = self.info[ix]
             ctx.mismatch("model-vs-impl:render", "Coq model of FileDownloader.render and the implementation differ: %s %s on a %d-byte %s file, implementation answered %r"
@@ -433,13 +441,14 @@ def run(ctx):
         B = boundary_headers(n)
         M = misc_headers(n)
         if full:
-            chosen = B + M
+            # every boundary header for every size; the (size-independent) miscellaneous ones on a tenth of the sizes
+            chosen = B + (M if (n < 12 or n % 10 == 0) else [M[(n * 4 + j * 17) % len(M)] for j in range(4)])
         else:
-            chosen = r.sample(B, 8) + [M[(n * 4 + j * 17) % len(M)] for j in range(4)]
+            chosen = r.sample(B, 7) + [M[(n * 4 + j * 17) % len(M)] for j in range(4)]
         for hb in [None] + chosen:
             kind = kinds[idx % 3]
             idx += 1
-            R.case(n, kind, hb, head_too=full or (idx % 2 == 0))
+            R.case(n, kind, hb, head_too=(idx % 3 == 0) if full else (idx % 2 == 0))
         if len(R.terms) > 6000:
             R.flush()
     # larger files: HEAD and short ranges around the end (bodies stay small), whole-file GET judged by the oracle only
